@@ -5,6 +5,7 @@ from simple import run_simple
 RUNNER = "stable"
 TRUSTED = [
     "Lean 4.33.0 kernel; axioms ⊆ {propext, Classical.choice, Quot.sound}",
+    "tools/rs2lean.py (Rust → Lean translator for fblamka / index_alpha / blake2_round_nomsg / fill_block index tuples) is trusted to transcribe the subset it accepts; it rejects anything else",
     "Lean RFC 9106 spec (passes the RFC and libsodium vectors) is the reference for salts ≠ 16 bytes and Argon2i with t < 3; libsodium elsewhere",
 ]
 
